@@ -15,9 +15,9 @@ open Dulwich Dulwich.RefsFS
 
 The methods the model transcribes still have the call/compare skeleton the model was written against: any
 reordering, dropped re-read, changed comparison or changed argument of the swap breaks one of these.  For the
-four places with a proposed repair (order of the two removals in `remove_if_equals`, loose files removed after
-the rename in `add_packed_refs`, the name `add_if_new` re-checks, the number of head reads in `WorkTree.commit`) the repaired skeleton is admitted as well, together
-with the value the generated flag must then have — the model follows the flag. -/
+three places with a proposed repair (the name `add_if_new` re-checks, pruning of loose files by `pack_refs`
+under the ref lock, the number of head reads in `WorkTree.commit`) the repaired skeleton is admitted as well,
+together with the value the generated flag must then have — the model follows the flags (`Variant.coded`). -/
 
 theorem skeleton_readers :
     Gen.RefsFS.skel_follow = [
@@ -44,33 +44,28 @@ theorem skeleton_setIfEquals :
   decide
 
 theorem skeleton_addIfNew :
-    ((Gen.RefsFS.skel_addIfNew = [
-      "call:follow", "cmp:contents is not None", "return:False", "call:GitFile", "call:exists",
-      "cmp:name in self.get_packed_refs()", "call:get_packed_refs", "call:abort", "return:False", "call:write",
-      "call:abort", "raise:", "return:True"] ∧
-        Gen.RefsFS.addIfNewChecksName = true) ∨
+    ((
+      Gen.RefsFS.skel_addIfNew = [
+        "call:follow", "cmp:contents is not None", "return:False", "call:GitFile", "call:exists",
+        "cmp:name in self.get_packed_refs()", "call:get_packed_refs", "call:abort", "return:False",
+        "call:write", "call:abort", "raise:", "return:True"] ∧
+      Gen.RefsFS.addIfNewChecksName = true) ∨
      -- after the proposed repair
-     (Gen.RefsFS.skel_addIfNew = [
-      "call:follow", "cmp:contents is not None", "return:False", "call:GitFile", "call:exists",
-      "cmp:realname in self.get_packed_refs()", "call:get_packed_refs", "call:abort", "return:False",
-      "call:write", "call:abort", "raise:", "return:True"] ∧
-        Gen.RefsFS.addIfNewChecksName = false)) := by
+     (
+      Gen.RefsFS.skel_addIfNew = [
+        "call:follow", "cmp:contents is not None", "return:False", "call:GitFile", "call:exists",
+        "cmp:realname in self.get_packed_refs()", "call:get_packed_refs", "call:abort", "return:False",
+        "call:write", "call:abort", "raise:", "return:True"] ∧
+      Gen.RefsFS.addIfNewChecksName = false)) := by
   decide
 
 theorem skeleton_removeIfEquals :
-    ((Gen.RefsFS.skel_removeIfEquals = [
+    Gen.RefsFS.skel_removeIfEquals = [
       "call:GitFile", "cmp:old_ref is not None", "call:read_loose_ref", "cmp:orig_ref is None",
       "call:get_packed_refs", "cmp:orig_ref is None", "cmp:orig_ref != old_ref", "return:False",
-      "call:lexists", "call:remove", "call:_remove_packed_ref", "call:abort", "cmp:parent == b'refs'",
+      "call:lexists", "call:_remove_packed_ref", "call:remove", "call:abort", "cmp:parent == b'refs'",
       "return:True"] ∧
-        Gen.RefsFS.rmLooseBeforePacked = true) ∨
-     -- after the proposed repair
-     (Gen.RefsFS.skel_removeIfEquals = [
-      "call:GitFile", "cmp:old_ref is not None", "call:read_loose_ref", "cmp:orig_ref is None",
-      "call:get_packed_refs", "cmp:orig_ref is None", "cmp:orig_ref != old_ref", "return:False",
-      "call:_remove_packed_ref", "call:lexists", "call:remove", "call:abort", "cmp:parent == b'refs'",
-      "return:True"] ∧
-        Gen.RefsFS.rmLooseBeforePacked = false)) ∧
+    Gen.RefsFS.rmLooseBeforePacked = false ∧
     Gen.RefsFS.skel_removePackedRef = [
       "cmp:name not in self.get_packed_refs()", "call:get_packed_refs", "return:", "call:GitFile",
       "call:_invalidate_packed_refs_cache", "call:copy", "call:get_packed_refs", "call:copy",
@@ -80,20 +75,31 @@ theorem skeleton_removeIfEquals :
   decide
 
 theorem skeleton_packRefs :
-    ((Gen.RefsFS.skel_addPackedRefs = [
-      "return:", "call:GitFile", "call:copy", "call:get_packed_refs", "cmp:ref == HEADREF",
-      "raise:ValueError('cannot pack HEAD')", "call:remove", "cmp:target is not None", "call:pop",
-      "call:write_packed_refs", "call:_invalidate_packed_refs_cache"] ∧
-        Gen.RefsFS.packRemovesLooseBeforeReplace = true) ∨
+    ((
+      Gen.RefsFS.skel_addPackedRefs = [
+        "return:", "call:GitFile", "call:copy", "call:get_packed_refs", "cmp:ref == HEADREF",
+        "raise:ValueError('cannot pack HEAD')", "cmp:target is not None", "call:pop", "call:write_packed_refs",
+        "call:remove", "call:_invalidate_packed_refs_cache"] ∧
+      Gen.RefsFS.skel_packRefs = [
+        "call:allkeys", "cmp:ref == HEADREF", "assign:sha = self[ref]", "getitem:self[ref]",
+        "call:add_packed_refs(refs_to_pack)"] ∧
+      Gen.RefsFS.skel_pruneLooseRef = [
+] ∧
+      Gen.RefsFS.packPrunesUnderRefLock = false) ∨
      -- after the proposed repair
-     (Gen.RefsFS.skel_addPackedRefs = [
-      "return:", "call:GitFile", "call:copy", "call:get_packed_refs", "cmp:ref == HEADREF",
-      "raise:ValueError('cannot pack HEAD')", "cmp:target is not None", "call:pop", "call:write_packed_refs",
-      "call:_invalidate_packed_refs_cache", "call:remove"] ∧
-        Gen.RefsFS.packRemovesLooseBeforeReplace = false)) ∧
-    Gen.RefsFS.skel_packRefs = [
-      "call:allkeys", "cmp:ref == HEADREF", "assign:sha = self[ref]", "getitem:self[ref]",
-      "call:add_packed_refs"] := by
+     (
+      Gen.RefsFS.skel_addPackedRefs = [
+        "return:", "call:GitFile", "call:copy", "call:get_packed_refs", "cmp:ref == HEADREF",
+        "raise:ValueError('cannot pack HEAD')", "cmp:target is not None", "call:pop", "call:write_packed_refs",
+        "cmp:target is not None", "call:_prune_loose_ref", "call:remove", "call:_invalidate_packed_refs_cache"] ∧
+      Gen.RefsFS.skel_packRefs = [
+        "call:allkeys", "cmp:ref == HEADREF", "assign:sha = self[ref]", "getitem:self[ref]",
+        "call:add_packed_refs(refs_to_pack, prune_only_if_unchanged=True)"] ∧
+      Gen.RefsFS.skel_pruneLooseRef = [
+        "call:GitFile", "return:", "call:read_loose_ref", "cmp:self.read_loose_ref(name) == expected",
+        "call:remove", "call:abort"] ∧
+      Gen.RefsFS.packPrunesUnderRefLock = true)) ∧
+    Gen.RefsFS.packRemovesLooseBeforeReplace = false := by
   decide
 
 theorem skeleton_setSymbolicRef :
@@ -110,16 +116,18 @@ theorem skeleton_lockFile :
   decide
 
 theorem skeleton_commit :
-    ((Gen.RefsFS.skel_worktreeCommit = [
-      "assign:old_head = self._repo.refs[ref]", "getitem:self._repo.refs[ref]",
-      "assign:old_head = self._repo.refs[ref]", "getitem:self._repo.refs[ref]",
-      "call:set_if_equals(ref, old_head, c.id)", "call:add_if_new(ref, c.id)"] ∧
-        Gen.RefsFS.worktreeCommitHeadReads = 2) ∨
+    ((
+      Gen.RefsFS.skel_worktreeCommit = [
+        "assign:old_head = self._repo.refs[ref]", "getitem:self._repo.refs[ref]",
+        "assign:old_head = self._repo.refs[ref]", "getitem:self._repo.refs[ref]",
+        "call:set_if_equals(ref, old_head, c.id)", "call:add_if_new(ref, c.id)"] ∧
+      Gen.RefsFS.worktreeCommitHeadReads = 2) ∨
      -- after the proposed repair
-     (Gen.RefsFS.skel_worktreeCommit = [
-      "assign:old_head = self._repo.refs[ref]", "getitem:self._repo.refs[ref]",
-      "call:set_if_equals(ref, old_head, c.id)", "call:add_if_new(ref, c.id)"] ∧
-        Gen.RefsFS.worktreeCommitHeadReads = 1)) ∧
+     (
+      Gen.RefsFS.skel_worktreeCommit = [
+        "assign:old_head = self._repo.refs[ref]", "getitem:self._repo.refs[ref]",
+        "call:set_if_equals(ref, old_head, c.id)", "call:add_if_new(ref, c.id)"] ∧
+      Gen.RefsFS.worktreeCommitHeadReads = 1)) ∧
     Gen.RefsFS.skel_memoryDoCommit = [
       "assign:old_head = self.refs[ref]", "getitem:self.refs[ref]", "call:set_if_equals(ref, old_head, c.id)",
       "call:add_if_new(ref, c.id)"] ∧
@@ -296,14 +304,27 @@ example :
     simp only [List.mem_cons, List.mem_nil_iff, or_false] at hop
     rcases hop with rfl | rfl | rfl | rfl <;> simp [LooseOp]
 
-/-! ## 2. Where the code as written violates the statement (negation witnesses on the full model)
+/-! ## 2. The two reader windows closed by fix bb5afda — regression witnesses on the old orders
 
-`Variant.pinned` is the order of steps in the pinned source (what `Variant.coded` evaluates to at the pinned commit); the witnesses are stated for this literal so they stay facts about that
-order whatever the source becomes.  Each witness schedule is also in corpus/C08 and is replayed on the real
-`DiskRefsContainer` under the system-call scheduler on every run. -/
+`Variant.old` is the order of steps before that fix (loose files unlinked BEFORE the new packed-refs is renamed
+in; `remove_if_equals` unlinks the loose file BEFORE dropping the packed entry); `Variant.current` is the order in
+the source now (what `Variant.coded` evaluates to, see `coded_variant_has_the_repaired_orders`).  The witnesses
+are stated for the literals so they stay facts about those orders whatever the source becomes.  Every witness
+schedule is in corpus/C08 and is replayed on the real `DiskRefsContainer` under the system-call scheduler on every
+run (the four of this section must HOLD on the real code now). -/
 
-def Variant.pinned : Variant :=
+def Variant.old : Variant :=
   { rmLooseFirst := true, packRemovesLooseFirst := true, addChecksName := true, commitReads := 2 }
+
+def Variant.current : Variant :=
+  { rmLooseFirst := false, packRemovesLooseFirst := false, addChecksName := true, commitReads := 2 }
+
+/-- The generated flags say that the source has the repaired orders of bb5afda (a revert breaks this), and the
+remaining flags have a value the model knows. -/
+theorem coded_variant_has_the_repaired_orders :
+    Variant.coded.rmLooseFirst = false ∧ Variant.coded.packRemovesLooseFirst = false ∧
+    (Variant.coded.commitReads = 1 ∨ Variant.coded.commitReads = 2) := by
+  decide
 
 def env0 : Env := { heads := [1, 2], order := [2, 1, 0] }
 
@@ -326,8 +347,8 @@ def ReaderDuringPackStatement (vr : Variant) : Prop :=
     finalOuts vr (fsLoose 1) [[.pack], [.read 1]] sched 1 = [] ∨
     finalOuts vr (fsLoose 1) [[.pack], [.read 1]] sched 1 = [.val (some (.sha 1))]
 
-/-- F8: between `os.remove(loose)` and the rename of the new packed-refs the reader finds the ref MISSING. -/
-theorem reader_during_pack_refs_sees_missing_counterexample : ¬ ReaderDuringPackStatement Variant.pinned := by
+/-- old order: between `os.remove(loose)` and the rename of the new packed-refs the reader finds the ref MISSING -/
+theorem reader_during_pack_refs_sees_missing_counterexample : ¬ ReaderDuringPackStatement Variant.old := by
   intro h
   have := h [0, 0, 0, 0, 0, 0, 0, 0, 1, 1, 1]
   revert this
@@ -339,13 +360,42 @@ def ReaderDuringPackOlderStatement (vr : Variant) : Prop :=
     finalOuts vr (fsBoth 2 1) [[.pack], [.read 1]] sched 1 = [] ∨
     finalOuts vr (fsBoth 2 1) [[.pack], [.read 1]] sched 1 = [.val (some (.sha 2))]
 
-/-- F8: in the same window the reader sees the OLDER packed value 1. -/
+/-- old order: in the same window the reader sees the OLDER packed value 1 -/
 theorem reader_during_pack_refs_sees_older_counterexample :
-    ¬ ReaderDuringPackOlderStatement Variant.pinned := by
+    ¬ ReaderDuringPackOlderStatement Variant.old := by
   intro h
   have := h [0, 0, 0, 0, 0, 0, 0, 0, 1, 1, 1]
   revert this
   decide
+
+/-- current order: the reader placed at every point of the packing run (after 0 … 12 steps of `pack_refs`) sees
+the value, for the never-packed and for the packed-then-updated ref -/
+example :
+    ((List.range 13).all fun k =>
+      finalOuts Variant.current (fsLoose 1) [[.pack], [.read 1]] (List.replicate k 0 ++ [1, 1, 1, 1]) 1
+        == [.val (some (.sha 1))]) = true ∧
+    ((List.range 13).all fun k =>
+      finalOuts Variant.current (fsBoth 2 1) [[.pack], [.read 1]] (List.replicate k 0 ++ [1, 1, 1, 1]) 1
+        == [.val (some (.sha 2))]) = true := by
+  decide
+
+/-- **current order, every schedule of at most 24 steps** (the two programs have 14 steps together, so this is
+every interleaving): a reader concurrent with `pack_refs` sees the value of the ref — for the never-packed ref
+and for the ref that was updated after it had been packed.  (Exhaustive evaluation of the model: `reachAll`
+enumerates every configuration a schedule of that length can reach.) -/
+theorem reader_during_pack_refs_ok_bounded (sched : List Actor) (hlen : sched.length ≤ 24) :
+    (finalOuts Variant.current (fsLoose 1) [[.pack], [.read 1]] sched 1 = [] ∨
+     finalOuts Variant.current (fsLoose 1) [[.pack], [.read 1]] sched 1 = [.val (some (.sha 1))]) ∧
+    (finalOuts Variant.current (fsBoth 2 1) [[.pack], [.read 1]] sched 1 = [] ∨
+     finalOuts Variant.current (fsBoth 2 1) [[.pack], [.read 1]] sched 1 = [.val (some (.sha 2))]) := by
+  have h1 : ((reachAll env0 Variant.current 24 (Config.init env0 Variant.current (fsLoose 1) [[.pack], [.read 1]])).all
+      fun cfg => cfg.outs 1 == [] || cfg.outs 1 == [.val (some (.sha 1))]) = true := by decide +kernel
+  have h2 : ((reachAll env0 Variant.current 24 (Config.init env0 Variant.current (fsBoth 2 1) [[.pack], [.read 1]])).all
+      fun cfg => cfg.outs 1 == [] || cfg.outs 1 == [.val (some (.sha 2))]) = true := by decide +kernel
+  have m1 := List.all_eq_true.mp h1 _ (runSched_mem_reachAll env0 Variant.current sched 24 _ hlen)
+  have m2 := List.all_eq_true.mp h2 _ (runSched_mem_reachAll env0 Variant.current sched 24 _ hlen)
+  simp only [Bool.or_eq_true, beq_iff_eq] at m1 m2
+  exact ⟨m1, m2⟩
 
 /-- "A reader concurrent with the deletion of a ref sees its value or sees it gone" — never an older value. -/
 def ReaderDuringRemoveStatement (vr : Variant) : Prop :=
@@ -353,21 +403,35 @@ def ReaderDuringRemoveStatement (vr : Variant) : Prop :=
     let o := finalOuts vr (fsBoth 2 1) [[.rm 1 (some (some (.sha 2)))], [.read 1]] sched 1
     o = [] ∨ o = [.val (some (.sha 2))] ∨ o = [.val none]
 
-/-- F8: `remove_if_equals` on a loose+packed ref removes the loose file first: the reader sees the older packed
-value 1 come back. -/
-theorem remove_if_equals_resurrects_packed_counterexample : ¬ ReaderDuringRemoveStatement Variant.pinned := by
+/-- old order: `remove_if_equals` on a loose+packed ref removes the loose file first: the reader sees the older
+packed value 1 come back -/
+theorem remove_if_equals_resurrects_packed_counterexample : ¬ ReaderDuringRemoveStatement Variant.old := by
   intro h
   have := h [0, 0, 0, 0, 0, 1, 1, 1]
   revert this
   decide
 
-/-- with the packed entry removed first the same schedule (and the one shifted to the new window) is fine -/
+/-- current order: the reader placed at every point of the delete sees 2 or nothing -/
 example :
-    finalOuts Variant.repaired (fsBoth 2 1) [[.rm 1 (some (some (.sha 2)))], [.read 1]] [0, 0, 0, 0, 0, 1, 1, 1] 1
-      = [.val (some (.sha 2))] ∧
-    finalOuts Variant.repaired (fsBoth 2 1) [[.rm 1 (some (some (.sha 2)))], [.read 1]]
-      [0, 0, 0, 0, 0, 0, 0, 0, 1, 1, 1] 1 = [.val (some (.sha 2))] := by
+    ((List.range 13).all fun k =>
+      let o := finalOuts Variant.current (fsBoth 2 1) [[.rm 1 (some (some (.sha 2)))], [.read 1]]
+        (List.replicate k 0 ++ [1, 1, 1, 1]) 1
+      o == [.val (some (.sha 2))] || o == [.val none]) = true := by
   decide
+
+/-- **current order, every schedule of at most 24 steps** (= every interleaving of the two programs): a reader
+concurrent with the deletion of a loose+packed ref sees the current value 2 or sees the ref gone, never the
+older packed value 1. -/
+theorem reader_during_remove_ok_bounded (sched : List Actor) (hlen : sched.length ≤ 24) :
+    let o := finalOuts Variant.current (fsBoth 2 1) [[.rm 1 (some (some (.sha 2)))], [.read 1]] sched 1
+    o = [] ∨ o = [.val (some (.sha 2))] ∨ o = [.val none] := by
+  have h1 : ((reachAll env0 Variant.current 24
+      (Config.init env0 Variant.current (fsBoth 2 1) [[.rm 1 (some (some (.sha 2)))], [.read 1]])).all
+      fun cfg => cfg.outs 1 == [] || (cfg.outs 1 == [.val (some (.sha 2))] || cfg.outs 1 == [.val none])) = true := by
+    decide +kernel
+  have m1 := List.all_eq_true.mp h1 _ (runSched_mem_reachAll env0 Variant.current sched 24 _ hlen)
+  simp only [Bool.or_eq_true, beq_iff_eq] at m1
+  exact m1
 
 /-- "An operation that raises has had no effect." -/
 def FailedRemoveHasNoEffectStatement (vr : Variant) : Prop :=
@@ -376,21 +440,23 @@ def FailedRemoveHasNoEffectStatement (vr : Variant) : Prop :=
     finalOuts vr fs [[.rm 1 (some (some (.sha 2)))], [.rm 2 none]] sched 0 = [.exc .locked] →
     finalVal vr fs [[.rm 1 (some (some (.sha 2)))], [.rm 2 none]] sched 1 = some (.sha 2)
 
-/-- `_remove_packed_ref` raises FileLocked (packed-refs.lock busy) after the loose file is gone: the failed
-delete has changed the ref to its older packed value. -/
-theorem remove_if_equals_half_deleted_counterexample : ¬ FailedRemoveHasNoEffectStatement Variant.pinned := by
+/-- old order: `_remove_packed_ref` raises FileLocked (packed-refs.lock busy) after the loose file is gone: the
+failed delete has changed the ref to its older packed value -/
+theorem remove_if_equals_half_deleted_counterexample : ¬ FailedRemoveHasNoEffectStatement Variant.old := by
   intro h
   have := h [1, 1, 1, 1, 1, 0, 0, 0, 0, 0, 0, 0, 0, 1, 1, 1, 1]
   revert this
   decide
 
-example : -- packed entry first: the same schedule fails before anything has changed
+example : -- current order: the same schedule fails before anything has changed
     let fs := FS.init (fun r => if r = 1 then some (.sha 2) else none) (some [(1, 1), (2, 3)])
-    finalOuts Variant.repaired fs [[.rm 1 (some (some (.sha 2)))], [.rm 2 none]]
+    finalOuts Variant.current fs [[.rm 1 (some (some (.sha 2)))], [.rm 2 none]]
         [1, 1, 1, 1, 1, 0, 0, 0, 0, 0, 0, 0, 0, 1, 1, 1, 1] 0 = [.exc .locked] ∧
-    finalVal Variant.repaired fs [[.rm 1 (some (some (.sha 2)))], [.rm 2 none]]
+    finalVal Variant.current fs [[.rm 1 (some (some (.sha 2)))], [.rm 2 none]]
         [1, 1, 1, 1, 1, 0, 0, 0, 0, 0, 0, 0, 0, 1, 1, 1, 1] 1 = some (.sha 2) := by
   decide
+
+/-! ## 3. What is still false for the code as it is now (negation witnesses on `Variant.current`) -/
 
 /-- "A conditional update that returned True is not lost: with no other writer, its value is the final value." -/
 def UpdateSurvivesPackStatement (vr : Variant) : Prop :=
@@ -399,13 +465,52 @@ def UpdateSurvivesPackStatement (vr : Variant) : Prop :=
     finalOuts vr (fsLoose 1) [[.cas 1 (some (some (.sha 1))) (.sha 5)], [.pack]] sched 1 = [.unit] →
     finalVal vr (fsLoose 1) [[.cas 1 (some (some (.sha 1))) (.sha 5)], [.pack]] sched 1 = some (.sha 5)
 
-/-- F8: `pack_refs` reads the value without the ref lock, `add_packed_refs` removes the loose file
-unconditionally: the successful update 1 → 5 is overwritten by the stale 1. -/
-theorem pack_refs_overwrites_update_counterexample : ¬ UpdateSurvivesPackStatement Variant.pinned := by
+/-- **Lost update.**  `pack_refs` reads the value without the ref lock and `add_packed_refs` unlinks the loose
+file unconditionally — now after the rename of packed-refs, still without the ref's own lock: the update 1 → 5
+lands between the rename and the unlink, returns True, and the ref ends at the stale packed value 1. -/
+theorem pack_refs_overwrites_update_counterexample : ¬ UpdateSurvivesPackStatement Variant.current := by
+  intro h
+  have := h [1, 1, 1, 1, 1, 1, 1, 1, 1, 0, 0, 0, 0, 0, 0, 0, 0, 0, 0, 1, 1]
+  revert this
+  decide
+
+/-- it was false with the old order too (the update lands between the read and the unlink) -/
+theorem pack_refs_overwrites_update_old_counterexample : ¬ UpdateSurvivesPackStatement Variant.old := by
   intro h
   have := h [1, 1, 1, 1, 1, 0, 0, 0, 0, 0, 0, 0, 0, 0, 1, 1, 1, 1, 1]
   revert this
   decide
+
+/-- with the proposed repair (unlink under the ref's own lock, only if the loose file still holds the packed
+value) both schedules keep the update: the loose 5 stays and overrides the packed 1 -/
+example :
+    finalVal Variant.repaired (fsLoose 1) [[.cas 1 (some (some (.sha 1))) (.sha 5)], [.pack]]
+      [1, 1, 1, 1, 1, 1, 1, 1, 1, 0, 0, 0, 0, 0, 0, 0, 0, 0, 0, 1, 1, 1, 1, 1] 1 = some (.sha 5) ∧
+    finalVal Variant.repaired (fsLoose 1) [[.cas 1 (some (some (.sha 1))) (.sha 5)], [.pack]]
+      [1, 1, 1, 1, 1, 0, 0, 0, 0, 0, 0, 0, 0, 0, 1, 1, 1, 1, 1, 1, 1, 1, 1, 1] 1 = some (.sha 5) := by
+  decide
+
+/-- "A ref whose deletion returned True stays deleted when nobody creates it again." -/
+def DeleteSurvivesPackStatement (vr : Variant) : Prop :=
+  ∀ sched : List Actor,
+    finalOuts vr (fsLoose 1) [[.rm 1 (some (some (.sha 1)))], [.pack]] sched 0 = [.bool true] →
+    finalOuts vr (fsLoose 1) [[.rm 1 (some (some (.sha 1)))], [.pack]] sched 1 = [.unit] →
+    finalVal vr (fsLoose 1) [[.rm 1 (some (some (.sha 1)))], [.pack]] sched 1 = none
+
+/-- **A deleted ref comes back.**  `pack_refs` read the value 1, the ref is deleted, `pack_refs` writes the stale
+value into packed-refs.  Not repaired by the proposed pruning patch either (second clause): it needs the delete and
+the packing to exclude each other (git: both hold packed-refs.lock for their whole critical section). -/
+theorem pack_refs_resurrects_deleted_ref_counterexample :
+    ¬ DeleteSurvivesPackStatement Variant.current ∧ ¬ DeleteSurvivesPackStatement Variant.repaired := by
+  constructor
+  · intro h
+    have := h [1, 1, 1, 1, 1, 0, 0, 0, 0, 0, 0, 0, 0, 0, 1, 1, 1, 1, 1, 1]
+    revert this
+    decide
+  · intro h
+    have := h [1, 1, 1, 1, 1, 0, 0, 0, 0, 0, 0, 0, 0, 0, 1, 1, 1, 1, 1, 1, 1, 1]
+    revert this
+    decide
 
 /-- "An update through HEAD, a re-pointing of HEAD and a reader behave as if executed in some order": if the
 reader (started after the re-pointing finished) still saw the old value, the update was not yet done, so it came
@@ -420,7 +525,7 @@ def SymrefUpdateStatement (vr : Variant) : Prop :=
     finalVal vr fs progs sched 1 = some (.sha 1)
 
 /-- the symref is followed outside any lock: the update lands on the old target after HEAD was re-pointed -/
-theorem symref_retarget_counterexample : ¬ SymrefUpdateStatement Variant.pinned := by
+theorem symref_retarget_counterexample : ¬ SymrefUpdateStatement Variant.current := by
   intro h
   have := h [0, 0, 0, 0, 0, 0, 0, 0, 1, 1, 1, 1, 1, 1, 2, 2, 0]
   revert this
@@ -436,13 +541,20 @@ def AddIfNewStatement (vr : Variant) : Prop :=
 
 /-- `add_if_new(HEAD)` re-checks packed-refs for `HEAD` instead of the resolved name: the branch was created
 (6) and packed in between, add_if_new overwrites it with 5 and reports True. -/
-theorem add_if_new_symref_packed_counterexample : ¬ AddIfNewStatement Variant.pinned := by
+theorem add_if_new_symref_packed_counterexample : ¬ AddIfNewStatement Variant.current := by
   intro h
-  have := h [0, 0, 0, 0, 1, 1, 1, 1, 1, 1, 1, 1, 1, 1, 1, 1, 1, 1, 1, 1, 1, 1, 1, 1, 0, 0, 0, 0, 0, 0, 0]
+  have := h ([0, 0, 0, 0] ++ List.replicate 21 1 ++ List.replicate 8 0)
   revert this
   decide
 
-/-! ## 3. Concurrent commits -/
+/-- with the resolved name re-checked the same schedule makes add_if_new return False -/
+example :
+    let fs := FS.init (fun r => if r = 0 then some (.sym 1) else none) none
+    finalOuts Variant.repaired fs [[.add 0 (.sha 5)], [.cas 1 none (.sha 6), .pack]]
+      ([0, 0, 0, 0] ++ List.replicate 24 1 ++ List.replicate 8 0) 0 = [.bool false] := by
+  decide
+
+/-! ## 4. Concurrent commits -/
 
 open Proto
 
@@ -507,9 +619,9 @@ transcribed: both commits report success with parent 1, the branch ends at 100, 
 theorem lost_commit_disk_counterexample :
     let progs : List (List Op) := [[.commit 0 100], [.commit 0 101]]
     let sched := [0, 0, 0, 1, 1, 1, 1, 1, 1, 1, 1, 1, 1, 1, 1, 1, 0, 0, 0, 0, 0, 0, 0, 0, 0, 0, 0]
-    finalOuts Variant.pinned (fsLoose 1) progs sched 0 = [.committed 100 (some 1)] ∧
-    finalOuts Variant.pinned (fsLoose 1) progs sched 1 = [.committed 101 (some 1)] ∧
-    finalVal Variant.pinned (fsLoose 1) progs sched 1 = some (.sha 100) := by
+    finalOuts Variant.current (fsLoose 1) progs sched 0 = [.committed 100 (some 1)] ∧
+    finalOuts Variant.current (fsLoose 1) progs sched 1 = [.committed 101 (some 1)] ∧
+    finalVal Variant.current (fsLoose 1) progs sched 1 = some (.sha 100) := by
   decide
 
 /-- with a single read the same schedule makes actor 0 the loser (CommitError), nothing is lost -/
